@@ -15,6 +15,7 @@ def parseAct (w : String) : Option Action :=
   match w.splitOn ":" with
   | ["st", i] => i.toNat?.map .start
   | ["en", i] => i.toNat?.map .enter
+  | ["mk", i] => i.toNat?.map .mk
   | ["ck", i] => i.toNat?.map .check
   | ["cw", i, b] => do
     let i ← i.toNat?
@@ -44,7 +45,7 @@ def parseAct (w : String) : Option Action :=
   | _ => none
 
 def showPC : PC → String
-  | .idle => "I" | .start => "S"
+  | .idle => "I" | .start => "S" | .reserved => "R"
   | .check c => s!"C{c}" | .creating c => s!"N{c}"
   | .waiting k _ => s!"W{k}"
   | .giveup k .stuck => s!"G{k}s" | .giveup k .ctx => s!"G{k}c"
